@@ -265,3 +265,46 @@ CHECKS["C16"] = dict(
     replay=replay_index("c16"),
     require=dict(renderings_checked=1000),
 )
+
+
+def _c06_stages(tier):
+    st = [dict(variant="vh", cmd="c06", shards=8, timeout=3000),
+          dict(variant="vh-race", cmd="c06", shards=8, timeout=3000, race=True, args=["-scale", "0.5"])]
+    return st
+
+
+CHECKS["C06"] = dict(
+    level="exploration",
+    level_text=("runtime monitor + race detector: every (worker, i) call chain is first run alone to obtain its bytes; then G goroutines (4-256) emit "
+                "their chains concurrently through a shared logger, children derived concurrently, hooks, a shared BasicSampler and the global "
+                "log.Logger, into recording destinations (plain, SyncWriter, MultiLevelWriter, ConsoleWriter.Out, log.Logger) that copy and checksum "
+                "their argument on entry and exit around an injected delay (Gosched / sleep / block until another write arrives), look the event up by "
+                "its unique id and compare bytes, count deliveries and overlapping calls; a toggler flips the global level and the sampling switch "
+                "meanwhile. Run both without and with the Go race detector (which also enables checkptr), GOMAXPROCS in {1,2,16}."),
+    technique="runtime monitoring: race detector + recording/checksumming writers with injected delays, exactly-once and byte-identity accounting",
+    stages=_c06_stages,
+    rule=("one case = one concurrent run (G workers x K events, one destination kind, one GOMAXPROCS value); all non-trivial (G >= 2); distinct by "
+          "run parameters. counters.events_delivered_concurrently is the number of writer calls judged."),
+    assumptions=["schedule variation changes coverage only: every oracle (byte identity with the sequential run, exactly-once, checksum stability, "
+                 "overlap count under SyncWriter, ceil(k/3) under the shared sampler) holds in every schedule of correct code",
+                 "data races are reported only if a zerolog frame is in the report; a race confined to harness frames makes the check exit 2"],
+    require=dict(events_delivered_concurrently=5000),
+)
+
+CHECKS["C18"] = dict(
+    level="exploration",
+    level_text=("runtime monitor + race detector: R in {1,8,64,128/512} requests with unique attribute values are served concurrently through "
+                "hlog.NewHandler and a random subset/order of all field handlers (AccessHandler at a random position) via ServeHTTP on fake "
+                "ResponseWriters of the three capability sets; every event must carry only its own request's marker and exactly the expected ordered "
+                "keys/values, the request id must equal the response header and IDFromRequest, the base logger must be unchanged, and AccessHandler's "
+                "(status, size) must equal what the fake ResponseWriter recorded for every WriteHeader/Write/short/error/ReadFrom/Flush script up to "
+                "length 4 (quick) / 5 (thorough), enumerated exhaustively across the rounds."),
+    technique="runtime monitoring: per-request marker isolation + response-script enumeration against recording fake ResponseWriters, race detector",
+    stages=lambda tier: [dict(variant="vh", cmd="c18", shards=8, timeout=3000),
+                         dict(variant="vh-race", cmd="c18", shards=8, timeout=3000, race=True)],
+    rule=("one case = one request (handler chain x capability set x response script); non-trivial = non-empty script or non-empty handler chain; "
+          "distinct by hash of (script, capability set, handler order, AccessHandler position)"),
+    assumptions=["requests are driven through ServeHTTP directly (no sockets); Flush alone is not treated as sending a status",
+                 "Tee is not reachable through hlog's public API and is not exercised"],
+    require=dict(requests_served=2000),
+)
